@@ -11,12 +11,12 @@ Core Lean only: linked into `pngmodel`.
   which `write` fails (permanently, or once) — short writes are invisible — and by the index of
   the failing `flush` call.
 * `WState` + `writeHeader`, `writeChunk`, `writeTextChunk`, `writeImageData`, the frame setters,
-  `finishW`, `dropW` — `Writer`/`PartialInfo` (encoder.rs:460-1121).
-* `CW` — `ChunkWriter` (:1163-1319); `ZEnc` — `flate2::write::ZlibEncoder<ChunkWriter>` reduced to
+  `finishW`, `dropW` — `Writer`/`PartialInfo` (encoder.rs:476-1152).
+* `CW` — `ChunkWriter` (:1194-1351); `ZEnc` — `flate2::write::ZlibEncoder<ChunkWriter>` reduced to
   what the encoder relies on (an abstract deterministic compressor `ZCodec` plus flate2's buffer of
-  output not yet handed to the inner writer); `Wrap`/`SW` — `Wrapper`/`StreamWriter` (:1338-1727).
+  output not yet handed to the inner writer); `Wrap`/`SW` — `Wrapper`/`StreamWriter` (:1370-1764).
 * the compressors are parameters: `Codec.encode` is the whole "filter rows + deflate" back-end of
-  `write_image_data` (three variants in the source, :777-832), `ZCodec.out` the streaming one.
+  `write_image_data` (three variants in the source, :808-863), `ZCodec.out` the streaming one.
   Their contracts (`Codec.Ok`, `ZCodec.Ok`) appear only as hypotheses of theorems.
 * every Rust panic site is an explicit `Res.panic` outcome (`PanicSite` lists them with line numbers).
 
@@ -37,17 +37,16 @@ deriving DecidableEq, Repr
 
 /-- the places where the Rust code can panic -/
 inductive PanicSite
-  | chunksZero            -- `data.chunks(in_len)` with `in_len = 0` (:781, :791, :809, :823)
-  | resetDimUnderflow     -- `self.info.width - fctl.x_offset` (:991-992, :1515-1516)
-  | animWrittenOverflow   -- `self.animation_written += 1` (:844)
-  | seqOverflow           -- `fctl.sequence_number += 1` (:1234, :1289)
-  | chunkBufferIndex      -- `self.buffer[0..4]` with a buffer shorter than 4 (:1288)
-  | rowSlice              -- `self.curr_buf[..self.line_len]` with `line_len > curr_buf.len()` (:1673)
-  | unreachableWrapper    -- the `unreachable!()` arms on `Wrapper` (:1615, :1616, :1637, :1665, :1666, :1690)
-  | nextFrameInfoOverflow -- `in_len * height` (:1213)
-  | assertIndexZero       -- `assert_eq!(self.index, 0)` (:1221)
-  | setFctlNotAnimated    -- `panic!("This function must be called on an animated PNG")` (:1254)
-  | toWriteUnderflow      -- `self.to_write -= written` (:1675)
+  | chunksZero            -- `data.chunks(in_len)` with `in_len = 0` (:812, :822, :840, :854)
+  | resetDimUnderflow     -- `self.info.width - fctl.x_offset` (:1022-1023, :1552-1553)
+  | animWrittenOverflow   -- `self.animation_written += 1` (:875)
+  | seqOverflow           -- `fctl.sequence_number += 1` (:1266, :1321)
+  | chunkBufferIndex      -- `self.buffer[0..4]` with a buffer shorter than 4 (:1320)
+  | rowSlice              -- `self.curr_buf[..self.line_len]` with `line_len > curr_buf.len()` (:1710)
+  | unreachableWrapper    -- the `unreachable!()` arms on `Wrapper` (:1652, :1653, :1674, :1702, :1703, :1727)
+  | assertIndexZero       -- `assert_eq!(self.index, 0)` (:1253)
+  | setFctlNotAnimated    -- `panic!("This function must be called on an animated PNG")` (:1286)
+  | toWriteUnderflow      -- `self.to_write -= written` (:1712)
 deriving DecidableEq, Repr
 
 inductive Res
@@ -147,7 +146,7 @@ def Sink.iendAttempts (s : Sink) : Nat := (s.log.filter fun e => e.piece == .chu
 
 /-! ## Configuration -/
 
-/-- `FrameControl` (common.rs:236-256); `dispose`/`blend` are the enum discriminants -/
+/-- `FrameControl` (common.rs:252-272); `dispose`/`blend` are the enum discriminants -/
 structure FC where
   seq : Nat := 0
   w : Nat
@@ -170,7 +169,7 @@ def FC.inRange (f : FC) : Prop :=
 
 instance (f : FC) : Decidable f.inRange := by unfold FC.inRange; infer_instance
 
-/-- the metadata items written between IHDR and acTL (`encode_header`, :582-621) -/
+/-- the metadata items written between IHDR and acTL (`encode_header`, :598-637) -/
 structure Meta where
   phys : Option Bytes := none        -- 9 bytes
   srgb : Option Nat := none          -- rendering intent
@@ -190,7 +189,7 @@ def optChunk (ty : Ty) : Option Bytes → List RChunk
   | some d => [⟨ty, d⟩]
   | none => []
 
-/-- encoder.rs:582-621 -/
+/-- encoder.rs:598-637 -/
 def preChunks (m : Meta) : List RChunk :=
   optChunk tyPHYS m.phys ++
   (match m.srgb with
@@ -226,14 +225,30 @@ def Cfg.inRange (c : Cfg) : Prop :=
 
 instance (c : Cfg) : Decidable c.inRange := by unfold Cfg.inRange; infer_instance
 
-/-- `Encoder::with_info` (:173-189) (`Encoder::new` + setters only produce configurations that pass) -/
-def withInfo (c : Cfg) : Except Err Unit :=
-  if c.actl.isSome != c.fctl.isSome then .error .notAnimated else
-  match c.actl with
-  | some (0, _) => .error .zeroFrames
-  | _ => .ok ()
+/-- `Some(a) > b.checked_sub(c)`: true when the subtraction underflows (`Some(_) > None`) -/
+def gtCheckedSub (a b c : Nat) : Bool := if c ≤ b then decide (a > b - c) else true
 
-/-- what `Encoder::set_animated` installs (:203-223) -/
+/-- the frame-control part of `Encoder::with_info` (:185-198) -/
+def checkFrameControl (cw ch : Nat) (f : FC) : Except Err FC :=
+  if f.w = 0 then .error .zeroWidth
+  else if f.h = 0 then .error .zeroHeight
+  else if gtCheckedSub f.w cw f.x || gtCheckedSub f.h ch f.y then .error .outOfBounds
+  else .ok { f with seq := 0 }
+
+/-- `Encoder::with_info` (:173-210): the frame control has to lie inside the canvas and be non-empty;
+    its sequence number is reset to 0.  (`Encoder::new` + the `Encoder` setters only produce
+    configurations that pass unchanged, apart from a zero-sized canvas, which `write_header` refuses.) -/
+def withInfo (c : Cfg) : Except Err Cfg :=
+  if c.actl.isSome != c.fctl.isSome then .error .notAnimated else
+  if c.actl.map (·.1) = some 0 then .error .zeroFrames else
+  match c.fctl with
+  | none => .ok c
+  | some f =>
+    match checkFrameControl c.width c.height f with
+    | .error e => .error e
+    | .ok f' => .ok { c with fctl := some f' }
+
+/-- what `Encoder::set_animated` installs (:219-239) -/
 def animatedCfg (c : Cfg) (frames plays : Nat) : Cfg :=
   { c with actl := some (frames, plays), fctl := some { w := c.width, h := c.height } }
 
@@ -254,12 +269,12 @@ def chunksOfAux (n : Nat) : Nat → Bytes → List Bytes
   | fuel+1, l => if l = [] then [] else l.take n :: chunksOfAux n fuel (l.drop n)
 def chunksOf (n : Nat) (l : Bytes) : List Bytes := chunksOfAux n l.length l
 
-def maxIdatChunkLen : Nat := 2 ^ 31 - 1      -- `u32::MAX >> 1` (:736)
-def maxFdatChunkLen : Nat := 2 ^ 31 - 1 - 4  -- (:738)
+def maxIdatChunkLen : Nat := 2 ^ 31 - 1      -- `u32::MAX >> 1` (:766)
+def maxFdatChunkLen : Nat := 2 ^ 31 - 1 - 4  -- (:768)
 
 /-! ## Writer -/
 
-/-- the "filter every row and deflate" back-end of `write_image_data` (:777-832): zlib stream for
+/-- the "filter every row and deflate" back-end of `write_image_data` (:808-863): zlib stream for
     `data` = `height` rows of `rowLen` bytes with filter unit `bpp` -/
 structure Codec where
   encode : (bpp rowLen height : Nat) → Bytes → Bytes
@@ -284,11 +299,11 @@ def WState.emit (s : WState) (cs : List RChunk) : WState × Bool :=
   let (k, ok) := s.sink.emitChunks cs
   ({ s with sink := k }, ok)
 
-/-- `write_iend` (:878-881): the flag is set BEFORE the chunk is written -/
+/-- `write_iend` (:909-912): the flag is set BEFORE the chunk is written -/
 def writeIend (s : WState) : WState × Bool :=
   ({ s with iendWritten := true }).emit [iendChunk]
 
-/-- `Drop for Writer` (:1115-1121) -/
+/-- `Drop for Writer` (:1146-1152) -/
 def dropW (s : WState) : WState :=
   if s.iendWritten then s else (writeIend s).1
 
@@ -298,7 +313,7 @@ def textPrefix : List (Option RChunk) → List RChunk × Bool
   | some c :: r => let (l, ok) := textPrefix r; (c :: l, ok)
   | none :: _ => ([], false)
 
-/-- the chunks of `encode_header` after the signature (:572-647) -/
+/-- the chunks of `encode_header` after the signature (:588-663) -/
 def headerChunks (c : Cfg) : List RChunk :=
   [mkIhdr c] ++ preChunks c.md ++
   (match c.actl with | some (n, p) => [mkActl n p] | none => []) ++
@@ -309,7 +324,7 @@ def initState (c : Cfg) (beh : SinkBehaviour) : WState :=
     fctl := c.fctl, hasPalette := c.palette.isSome, sepDefImg := c.sepDefImg, validate := c.validate,
     sink := { beh } }
 
-/-- `Encoder::write_header` = `Writer::new(..).init(..)` (:282-284, :532-566).  On an error the
+/-- `Encoder::write_header` = `Writer::new(..).init(..)` (:298-300, :548-582).  On an error the
     `Writer` value is dropped, so its `Drop` still writes an IEND. -/
 def writeHeader (c : Cfg) (beh : SinkBehaviour) : WState × Res :=
   let s := initState c beh
@@ -323,14 +338,14 @@ def writeHeader (c : Cfg) (beh : SinkBehaviour) : WState × Res :=
     | (s', false) => (dropW s', .err .io)
     | (s', true) => if (textPrefix c.texts).2 then (s', .ok) else (dropW s', .err .badText)
 
-/-- `Writer::write_chunk` (:658-667) -/
+/-- `Writer::write_chunk` (:674-683) -/
 def writeChunk (s : WState) (ty : Ty) (data : Bytes) : WState × Res :=
   if data.length > 2 ^ 31 - 1 then (s, .err .writtenTooMuch) else
   match s.emit [⟨ty, data⟩] with
   | (s', true) => (s', .ok)
   | (s', false) => (s', .err .io)
 
-/-- `Writer::write_text_chunk` (:669-671); `body` = what `encode` builds, `none` if it refuses -/
+/-- `Writer::write_text_chunk` (:685-687); `body` = what `encode` builds, `none` if it refuses -/
 def writeTextChunk (s : WState) (body : Option RChunk) : WState × Res :=
   match body with
   | none => (s, .err .badText)
@@ -339,19 +354,26 @@ def writeTextChunk (s : WState) (body : Option RChunk) : WState × Res :=
     | (s', true) => (s', .ok)
     | (s', false) => (s', .err .io)
 
-/-- `validate_new_image` (:699-720) -/
+/-- `validate_new_image` (:715-736) -/
 def validateNewImage (s : WState) : Option Err :=
   if !s.validate then none else
   match s.actl with
   | none => if s.imagesWritten = 0 then none else some .endReached
   | some _ => if s.fctl.isSome then none else some .endReached
 
-/-- `validate_sequence_done` (:722-734) -/
+/-- `validate_first_image_rect` (:739-750): the first image is the default image and covers the canvas -/
+def validateFirstImageRect (s : WState) : Option Err :=
+  match s.fctl with
+  | some f =>
+    if s.imagesWritten = 0 ∧ ¬ (f.x = 0 ∧ f.y = 0 ∧ f.w = s.width ∧ f.h = s.height) then some .outOfBounds else none
+  | none => none
+
+/-- `validate_sequence_done` (:752-764) -/
 def validateSequenceDone (s : WState) : Option Err :=
   if !s.validate then none else
   if (s.actl.isSome ∧ s.fctl.isSome) ∨ s.imagesWritten = 0 then some .missingFrames else none
 
-/-- `increment_images_written` (:867-876) (`u64::saturating_add`) -/
+/-- `increment_images_written` (:898-907) (`u64::saturating_add`) -/
 def incrementImagesWritten (s : WState) : WState :=
   let s := { s with imagesWritten := min (s.imagesWritten + 1) (2 ^ 64 - 1) }
   match s.actl with
@@ -360,7 +382,7 @@ def incrementImagesWritten (s : WState) : WState :=
 
 def skipFctlOnDefault (s : WState) : Bool := s.sepDefImg && s.imagesWritten == 0
 
-/-- size of the next image: from the frame control if there is one, else the canvas (:748-756, :1202-1210) -/
+/-- size of the next image: from the frame control if there is one, else the canvas (:779-787, :1233-1241) -/
 def nextDims (s : WState) : Nat × Nat :=
   match s.fctl with
   | some f => (f.w, f.h)
@@ -370,7 +392,7 @@ def inLenOf (s : WState) (w : Nat) : Nat := rawRowLengthFromWidth s.color s.dept
 
 def idatChunks (z : Bytes) : List RChunk := (chunksOf maxIdatChunkLen z).map mkIdat
 
-/-- the fdAT loop (:850-857): every chunk takes the next sequence number (`wrapping_add`) -/
+/-- the fdAT loop (:881-888): every chunk takes the next sequence number (`wrapping_add`) -/
 def fdatChunks : Nat → List Bytes → List RChunk × Nat
   | seq, [] => ([], seq)
   | seq, p :: ps => let (l, s') := fdatChunks ((seq + 1) % 2 ^ 32) ps; (mkFdat seq p :: l, s')
@@ -378,11 +400,14 @@ def fdatChunks : Nat → List Bytes → List RChunk × Nat
 /-- sequence number after emitting the first `k` of the fdAT chunks -/
 def seqAfter (seq k : Nat) : Nat := (seq + k) % 2 ^ 32
 
-/-- the checks of `write_image_data` before anything is written (:742-769) and the first panic site
+/-- the checks of `write_image_data` before anything is written (:772-800) and the first panic site
     (`data.chunks(in_len)`); on success: row length and height of the image -/
 def imageChecks (s : WState) (data : Bytes) : Except Res (Nat × Nat) :=
   if s.color = 3 ∧ s.hasPalette = false then .error (.err .noPalette) else
   match validateNewImage s with
+  | some e => .error (.err e)
+  | none =>
+  match validateFirstImageRect s with
   | some e => .error (.err e)
   | none =>
   let wh := nextDims s
@@ -391,13 +416,13 @@ def imageChecks (s : WState) (data : Bytes) : Except Res (Nat × Nat) :=
   if dataSize ≠ data.length then .error (.err .imageBufferSize) else
   if inLen = 0 then .error (.panic .chunksZero) else .ok (inLen, wh.2)
 
-/-- `write_zlib_encoded_idat` + `increment_images_written` (:836, :839, :848, :862) -/
+/-- `write_zlib_encoded_idat` + `increment_images_written` (:867, :870, :879, :893) -/
 def emitIdatImage (s : WState) (z : Bytes) : WState × Res :=
   match s.emit (idatChunks z) with
   | (s', false) => (s', .err .io)
   | (s', true) => (incrementImagesWritten s', .ok)
 
-/-- the fdAT loop (:850-857) + `increment_images_written`: one chunk at a time, the sequence number is
+/-- the fdAT loop (:881-888) + `increment_images_written`: one chunk at a time, the sequence number is
     bumped after each successful write; a failing write leaves the number of the failed chunk -/
 def emitFdatImage (s1 : WState) (f : FC) (seq1 : Nat) (z : Bytes) : WState × Res :=
   let parts := chunksOf maxFdatChunkLen z
@@ -409,7 +434,7 @@ def emitFdatImage (s1 : WState) (f : FC) (seq1 : Nat) (z : Bytes) : WState × Re
   | (s2, true) =>
     (incrementImagesWritten { s2 with fctl := some { f with seq := seqAfter seq1 parts.length } }, .ok)
 
-/-- fcTL, then the image data as IDAT (first image) or fdAT (:841-859) -/
+/-- fcTL, then the image data as IDAT (first image) or fdAT (:872-890) -/
 def emitFrame (s : WState) (f : FC) (z : Bytes) : WState × Res :=
   match s.emit [mkFctl f] with
   | (s', false) => (s', .err .io)
@@ -419,19 +444,19 @@ def emitFrame (s : WState) (f : FC) (z : Bytes) : WState × Res :=
     let s1 := { s' with fctl := some { f with seq := seq1 }, animWritten := s'.animWritten + 1 }
     if s1.imagesWritten = 0 then emitIdatImage s1 z else emitFdatImage s1 f seq1 z
 
-/-- :834-862 -/
+/-- :865-893 -/
 def emitImage (s : WState) (z : Bytes) : WState × Res :=
   match s.fctl with
   | none => emitIdatImage s z
   | some f => if skipFctlOnDefault s then emitIdatImage s z else emitFrame s f z
 
-/-- `Writer::write_image_data` (:741-865) -/
+/-- `Writer::write_image_data` (:771-896) -/
 def writeImageData (E : Codec) (s : WState) (data : Bytes) : WState × Res :=
   match imageChecks s data with
   | .error r => (s, r)
   | .ok (inLen, h) => emitImage s (E.encode (bytesPerPixel s.color s.depth) inLen h data)
 
-/-! ### Frame setters (:914-1056) -/
+/-! ### Frame setters (:945-1087) -/
 
 def withFctl (s : WState) (k : FC → WState × Res) : WState × Res :=
   match s.fctl with
@@ -440,9 +465,6 @@ def withFctl (s : WState) (k : FC → WState × Res) : WState × Res :=
 
 def setFrameDelay (s : WState) (n d : Nat) : WState × Res :=
   withFctl s fun f => ({ s with fctl := some { f with delayNum := n, delayDen := d } }, .ok)
-
-/-- `Some(a) > b.checked_sub(c)`: true when the subtraction underflows (`Some(_) > None`) -/
-def gtCheckedSub (a b c : Nat) : Bool := if c ≤ b then decide (a > b - c) else true
 
 def setFrameDimension (s : WState) (w h : Nat) : WState × Res :=
   withFctl s fun f =>
@@ -470,7 +492,7 @@ def setBlendOp (s : WState) (b : Nat) : WState × Res :=
 def setDisposeOp (s : WState) (d : Nat) : WState × Res :=
   withFctl s fun f => ({ s with fctl := some { f with dispose := d } }, .ok)
 
-/-- `Writer::finish` (:1104-1112): whatever happens, `self` is dropped at the end -/
+/-- `Writer::finish` (:1135-1143): whatever happens, `self` is dropped at the end -/
 def finishW (s : WState) : WState × Res :=
   match validateSequenceDone s with
   | some e => (dropW s, .err e)
@@ -570,12 +592,12 @@ deriving DecidableEq, Repr
 
 /-- a deterministic streaming compressor: the bytes an operation produces are a function of the
     operations performed before it.  `row bpp prev cur` = filter type byte followed by the filtered
-    row, what `StreamWriter::write` feeds to it for a complete line (:1679-1694). -/
+    row, what `StreamWriter::write` feeds to it for a complete line (:1716-1731). -/
 structure ZCodec where
   out : List ZOp → ZOp → Bytes
   row : (bpp : Nat) → (prev cur : Bytes) → Bytes
 
-/-- `ChunkWriter` (:1163-1169); `index = buf.length`, `buffer.len() = cap` -/
+/-- `ChunkWriter` (:1194-1200); `index = buf.length`, `buffer.len() = cap` -/
 structure CW where
   w : WState
   cap : Nat
@@ -583,19 +605,19 @@ structure CW where
   curr : Ty
 deriving DecidableEq, Repr
 
-def chunkCap : Nat := 2 ^ 31 - 1   -- `u32::MAX as usize >> 1` (:1179)
+def chunkCap : Nat := 2 ^ 31 - 1   -- `u32::MAX as usize >> 1` (:1210)
 
-/-- `ChunkWriter::new` (:1172-1191) -/
+/-- `ChunkWriter::new` (:1203-1222) -/
 def CW.new (w : WState) (bufLen : Nat) : CW :=
   { w, cap := min chunkCap bufLen, curr := if w.imagesWritten = 0 then tyIDAT else tyFDAT }
 
-/-- `next_frame_info` (:1199-1216): unchecked `in_len * height` in `usize` -/
-def CW.nextFrameInfo (c : CW) : Out (Nat × Nat) :=
+/-- `next_frame_info` (:1230-1248): `in_len.checked_mul(height).unwrap_or(usize::MAX)` -/
+def CW.nextFrameInfo (c : CW) : Nat × Nat :=
   let (w, h) := nextDims c.w
   let inLen := inLenOf c.w w
-  if inLen * h ≥ 2 ^ 64 then .panic .nextFrameInfoOverflow else .ok (inLen, inLen * h)
+  (inLen, if inLen * h < 2 ^ 64 then inLen * h else 2 ^ 64 - 1)
 
-/-- `ChunkWriter::write_header` (:1220-1240) -/
+/-- `ChunkWriter::write_header` (:1252-1272) -/
 def CW.writeHeader (c : CW) : CW × Res :=
   if c.buf.length ≠ 0 then (c, .panic .assertIndexZero) else
   let c := { c with curr := if c.w.imagesWritten = 0 then tyIDAT else tyFDAT }
@@ -609,13 +631,13 @@ def CW.writeHeader (c : CW) : CW × Res :=
       if f.seq + 1 ≥ 2 ^ 32 then ({ c with w := w' }, .panic .seqOverflow)
       else ({ c with w := { w' with fctl := some { f with seq := f.seq + 1 } } }, .ok)
 
-/-- `set_fctl` (:1246-1256) -/
+/-- `set_fctl` (:1278-1288) -/
 def CW.setFctl (c : CW) (f : FC) : CW × Res :=
   match c.w.fctl with
   | some cur => ({ c with w := { c.w with fctl := some { f with seq := cur.seq } } }, .ok)
   | none => (c, .panic .setFctlNotAnimated)
 
-/-- `flush_inner` (:1259-1271) -/
+/-- `flush_inner` (:1291-1303) -/
 def CW.flushInner (c : CW) : CW × Res :=
   if c.buf.length > 0 then
     match c.w.emit [⟨c.curr, c.buf⟩] with
@@ -623,7 +645,7 @@ def CW.flushInner (c : CW) : CW × Res :=
     | (w', false) => ({ c with w := w' }, .err .io)
   else (c, .ok)
 
-/-- start of a chunk (`index == 0`, :1281-1292): an animated writer puts the next sequence number
+/-- start of a chunk (`index == 0`, :1313-1324): an animated writer puts the next sequence number
     into the first four bytes of the buffer — whatever the chunk type is -/
 def CW.startChunk (c : CW) : CW × Option PanicSite :=
   if c.buf.length = 0 then
@@ -636,7 +658,7 @@ def CW.startChunk (c : CW) : CW × Option PanicSite :=
     | none => (c, none)
   else (c, none)
 
-/-- copy as much as fits, emit the chunk when the buffer is full (:1294-1307) -/
+/-- copy as much as fits, emit the chunk when the buffer is full (:1326-1339) -/
 def CW.append (c : CW) (data : Bytes) : CW × Out Nat :=
   let written := min data.length (c.cap - c.buf.length)
   let c := { c with buf := c.buf ++ data.take written }
@@ -647,7 +669,7 @@ def CW.append (c : CW) (data : Bytes) : CW × Out Nat :=
     | (c', .panic p) => (c', .panic p)
   else (c, .ok written)
 
-/-- `impl Write for ChunkWriter`: `write` (:1275-1308) -/
+/-- `impl Write for ChunkWriter`: `write` (:1307-1340) -/
 def CW.write (c : CW) (data : Bytes) : CW × Out Nat :=
   if data = [] then (c, .ok 0) else
   match c.startChunk with
@@ -700,7 +722,7 @@ def ZEnc.finish (Z : ZCodec) (z : ZEnc) : ZEnc × Res :=
     ({ z' with pending := z'.pending ++ Z.out z'.hist ZOp.finish, hist := z'.hist ++ [ZOp.finish] }).dump
   | r => r
 
-/-- dropping a `ChunkWriter` (:1315-1319), then — if it owns the `Writer` — the `Writer` -/
+/-- dropping a `ChunkWriter` (:1347-1351), then — if it owns the `Writer` — the `Writer` -/
 def CW.drop (c : CW) (owned : Bool) : WState × Res :=
   match c.flushInner with
   | (c', .panic p) => (c'.w, .panic p)
@@ -712,7 +734,7 @@ def ZEnc.drop (Z : ZCodec) (z : ZEnc) (owned : Bool) : WState × Res :=
   | (z', .panic p) => (z'.cw.w, .panic p)
   | (z', _) => z'.cw.drop owned
 
-/-- `Wrapper` (:1338-1344) -/
+/-- `Wrapper` (:1370-1376) -/
 inductive Wrap
   | chunk (c : CW)
   | zlib (z : ZEnc)
@@ -720,7 +742,7 @@ inductive Wrap
   | none
 deriving DecidableEq, Repr
 
-/-- `StreamWriter` (:1363-1383).  `released`: the `Writer` after the chunk writer that held it was
+/-- `StreamWriter` (:1395-1415).  `released`: the `Writer` after the chunk writer that held it was
     dropped (for an owned `Writer` this includes the `Writer`'s own drop). -/
 structure SW where
   wr : Wrap
@@ -749,23 +771,25 @@ def SW.release (s : SW) (w : Option WState) : SW :=
   | some w => { s with released := some w }
   | none => s
 
-/-- `StreamWriter::new` (:1386-1420).  On an error — and when a panic unwinds — the chunk writer (and an
-    owned `Writer`) is dropped. -/
+/-- `StreamWriter::new` (:1418-1457).  Refuses an indexed image without palette and a first image that
+    does not cover the canvas before anything is written.  On an error — and when a panic unwinds —
+    the chunk writer (and an owned `Writer`) is dropped. -/
 def SW.new (w : WState) (owned : Bool) (bufLen : Nat) : Sum SW WState × Res :=
+  if w.color = 3 ∧ w.hasPalette = false then (.inr (if owned then dropW w else w), .err .noPalette) else
+  match validateFirstImageRect w with
+  | some e => (.inr (if owned then dropW w else w), .err e)
+  | none =>
   let inLen := inLenOf w w.width
   let cw := CW.new w bufLen
-  match cw.nextFrameInfo with
-  | .panic p => (.inr (cw.drop owned).1, .panic p)
-  | .err e => (.inr (cw.drop owned).1, .err e)
-  | .ok (lineLen, toWrite) =>
-    match cw.writeHeader with
-    | (cw', .ok) =>
-      (.inl { wr := .zlib { cw := cw' }, owned, bpp := bytesPerPixel w.color w.depth,
-              prevBuf := List.replicate inLen 0, curBuf := List.replicate inLen 0,
-              lineLen, toWrite, width := w.width, height := w.height, fctl := w.fctl }, .ok)
-    | (cw', r) => (.inr (cw'.drop owned).1, r)
+  let (lineLen, toWrite) := cw.nextFrameInfo
+  match cw.writeHeader with
+  | (cw', .ok) =>
+    (.inl { wr := .zlib { cw := cw' }, owned, bpp := bytesPerPixel w.color w.depth,
+            prevBuf := List.replicate inLen 0, curBuf := List.replicate inLen 0,
+            lineLen, toWrite, width := w.width, height := w.height, fctl := w.fctl }, .ok)
+  | (cw', r) => (.inr (cw'.drop owned).1, r)
 
-/-- `new_frame` (:1608-1641) -/
+/-- `new_frame` (:1645-1678) -/
 def SW.newFrame (s : SW) : SW × Res :=
   match s.wr with
   | .unrecoverable => (s, .err .unrecoverable)
@@ -786,21 +810,19 @@ def SW.newFrame (s : SW) : SW × Res :=
         | (cw, .panic p) => ({ s with wr := .chunk cw }, .panic p)
         | (cw, .err e) => ({ s with wr := .chunk cw }, .err e)
         | (cw, .ok) =>
-          match cw.nextFrameInfo with
-          | .panic p => ({ s with wr := .chunk cw }, .panic p)
-          | .err e => ({ s with wr := .chunk cw }, .err e)
-          | .ok (scan, size) =>
+          let (scan, size) := cw.nextFrameInfo
+          (
             let s := { s with lineLen := scan, toWrite := size }
             match cw.writeHeader with
             | (cw, .ok) =>
               let cw := { cw with w := incrementImagesWritten cw.w }
               ({ s with wr := .zlib { cw } }, .ok)
-            | (cw, r) => ({ s with wr := .chunk cw }, r)
+            | (cw, r) => ({ s with wr := .chunk cw }, r))
 
 /-- overwrite the bytes of `buf` from position `i` with `d` (`data.read(&mut buf[i..])`) -/
 def overwrite (buf : Bytes) (i : Nat) (d : Bytes) : Bytes := buf.take i ++ d ++ buf.drop (i + d.length)
 
-/-- `impl Write for StreamWriter`: `write` (:1645-1700) -/
+/-- `impl Write for StreamWriter`: `write` (:1682-1737) -/
 def SW.write (Z : ZCodec) (s : SW) (data : Bytes) : SW × Out Nat :=
   if s.wr = .unrecoverable then (s, .err .unrecoverable) else
   if data = [] then (s, .ok 0) else
@@ -860,7 +882,7 @@ def SW.writeAllAux (Z : ZCodec) : Nat → SW → Bytes → SW × Res
 
 def SW.writeAll (Z : ZCodec) (s : SW) (d : Bytes) : SW × Res := SW.writeAllAux Z (d.length + 1) s d
 
-/-- `impl Write for StreamWriter`: `flush` (:1702-1720) -/
+/-- `impl Write for StreamWriter`: `flush` (:1739-1757) -/
 def SW.flush (Z : ZCodec) (s : SW) : SW × Res :=
   let r : SW × Res := match s.wr with
     | .zlib z => let (z', r) := z.flush Z; ({ s with wr := .zlib z' }, r)
@@ -870,7 +892,7 @@ def SW.flush (Z : ZCodec) (s : SW) : SW × Res :=
   | (s, .ok) => if s.index > 0 then (s, .err .writtenTooMuch) else (s, .ok)
   | r => r
 
-/-- `Drop for StreamWriter` (:1723-1727) followed by the drop of its fields -/
+/-- `Drop for StreamWriter` (:1760-1764) followed by the drop of its fields -/
 def SW.drop (Z : ZCodec) (s : SW) : SW × Res :=
   match s.flush Z with
   | (s, .panic p) => (s, .panic p)
@@ -878,7 +900,7 @@ def SW.drop (Z : ZCodec) (s : SW) : SW × Res :=
     let (w, r) := s.wr.drop Z s.owned
     (({ s with wr := .none }).release w, r)
 
-/-- `StreamWriter::finish` (:1588-1602); the returned state is the one after `self` has been dropped -/
+/-- `StreamWriter::finish` (:1625-1639); the returned state is the one after `self` has been dropped -/
 def SW.finish (Z : ZCodec) (s : SW) : SW × Res :=
   if s.toWrite > 0 then
     match s.drop Z with
@@ -906,7 +928,7 @@ def SW.finish (Z : ZCodec) (s : SW) : SW × Res :=
         | some e => (s, .err e)
         | none => (s, .ok)
 
-/-! ### Frame setters shared by both writers: the `StreamWriter` ones work on its own copy (:1442-1580) -/
+/-! ### Frame setters shared by both writers: the `StreamWriter` ones work on its own copy (:1479-1617) -/
 
 inductive SetOp
   | delay (n d : Nat)
